@@ -335,14 +335,8 @@ Proof. split; simpl; auto. rewrite firstn_all; auto. Qed.
 Lemma honest_rep0 lg : honest lg rep0.
 Proof. split; simpl; [lia | reflexivity]. Qed.
 
-Lemma restore_safe live snap : install_safe live snap = true -> restore_into live snap = snap.
-Proof.
-  unfold install_safe, restore_into. intros H.
-  apply andb_true_iff in H as [H H4]. apply andb_true_iff in H as [H H3]. apply andb_true_iff in H as [H1 H2].
-  destruct snap as [ps nc nt r]; simpl in *.
-  destruct (nc =? 0); [discriminate|]. destruct (nt =? 0); [discriminate|].
-  destruct ps; [discriminate|]. destruct r; auto. destruct (ro live); auto; discriminate.
-Qed.
+Lemma restore_exact live snap : restore_into live snap = snap.
+Proof. reflexivity. Qed.
 
 (* ================= history and curator invariants ================= *)
 Definition HInv (w : world) : Prop :=
@@ -650,12 +644,12 @@ Proof.
   destruct HR as (Hh & _). eapply honest_nth; eauto.
 Qed.
 
-Lemma ev_install_Inv w j : Inv w -> event_safe w (EvInstall j) = true -> Inv (ev_install w j).
+Lemma ev_install_Inv w j : Inv w -> Inv (ev_install w j).
 Proof.
-  intros (HR & HH & HC) Hs. unfold ev_install. simpl in Hs.
+  intros (HR & HH & HC). unfold ev_install.
   destruct (Nat.eqb j (w_leader w)) eqn:Ej; [split; [|split]; assumption|]. apply Nat.eqb_neq in Ej.
   destruct (nth_error (w_reps w) j) as [r|] eqn:En; [|split; [|split]; assumption].
-  rewrite (restore_safe _ _ Hs).
+  rewrite restore_exact.
   destruct (set_master_same w (upd_nth j {| r_applied := length (w_log w); r_st := leader_st w |} (w_reps w)) (w_leader w) (w_mvol w) HH HC) as [H1 H2].
   split; [|split; auto]. apply RInv_follower; auto. rewrite (RInv_leader_st w HR). apply honest_full.
 Qed.
@@ -689,10 +683,10 @@ Proof.
   - rewrite nth_upd_nth_eq; auto. simpl. rewrite skipn_length. destruct Hr. lia.
 Qed.
 
-Lemma ev_failover_Inv w : Inv w -> event_safe w EvFailover = true -> Inv (ev_failover w).
+Lemma ev_failover_Inv w : Inv w -> Inv (ev_failover w).
 Proof.
-  intros (HR & HH & HC) Hs. unfold ev_failover. simpl in Hs. unfold leader_st in Hs.
-  rewrite (restore_safe _ _ Hs).
+  intros (HR & HH & HC). unfold ev_failover.
+  rewrite restore_exact.
   destruct (set_master_same w (upd_nth (w_leader w) {| r_applied := r_applied (leader_rep w); r_st := r_st (leader_rep w) |} (w_reps w)) (w_leader w) [] HH HC) as [H1 H2].
   split; [|split; auto].
   destruct HR as (Hh & Hl & Ha).
@@ -1025,14 +1019,14 @@ Proof.
     destruct (Nat.leb (r_applied r) idx); simpl; congruence.
 Qed.
 
-Lemma ev_snap_install_Inv w j : Inv w -> SInv w -> event_safe w (EvSnapInstall j) = true -> Inv (ev_snap_install w j).
+Lemma ev_snap_install_Inv w j : Inv w -> SInv w -> Inv (ev_snap_install w j).
 Proof.
-  intros (HR & HH & HC) HS Hs. unfold ev_snap_install. simpl in Hs.
+  intros (HR & HH & HC) HS. unfold ev_snap_install.
   destruct (Nat.eqb j (w_leader w)) eqn:Ej; [split; [|split]; assumption|]. apply Nat.eqb_neq in Ej.
   destruct (nth_error (w_reps w) j) as [r|] eqn:En; [|split; [|split]; assumption].
   unfold SInv in HS. destruct (w_snap w) as [[idx st]|]; [|split; [|split]; assumption].
   destruct (Nat.leb (r_applied r) idx); [|split; [|split]; assumption].
-  rewrite (restore_safe _ _ Hs). destruct HS as [Hi ->].
+  rewrite restore_exact. destruct HS as [Hi ->].
   destruct (set_master_same w (upd_nth j {| r_applied := idx; r_st := replay (firstn idx (w_log w)) |} (w_reps w)) (w_leader w) (w_mvol w) HH HC) as [H1 H2].
   split; [|split; auto]. apply RInv_follower; auto. split; simpl; auto.
 Qed.
@@ -1047,10 +1041,10 @@ Proof.
   - unfold SInv. rewrite (snap_same w e Hne), Hl. apply SInvP_app. exact HS.
 Qed.
 
-Lemma step_Inv w e : Inv w -> SInv w -> bound w -> event_safe w e = true ->
+Lemma step_Inv w e : Inv w -> SInv w -> bound w ->
   Inv (step w e) /\ (length (w_log (step w e)) <= S (length (w_log w)))%nat.
 Proof.
-  intros HI HS Hb Hs. pose proof HI as (HR & HH & HC).
+  intros HI HS Hb. pose proof HI as (HR & HH & HC).
   assert (Hsame : forall w0, Inv w0 -> w_log w0 = w_log w -> Inv w0 /\ (length (w_log w0) <= S (length (w_log w)))%nat).
   { intros w0 H0 ->. split; auto. }
   destruct e; simpl.
@@ -1098,55 +1092,48 @@ Proof.
 Qed.
 
 Lemma run_from_Inv evs : forall w,
-  Inv w -> SInv w -> N.of_nat (length (w_log w) + length evs) + 3 < W32 -> trace_safe_from w evs = true ->
+  Inv w -> SInv w -> N.of_nat (length (w_log w) + length evs) + 3 < W32 ->
   Inv (run_from w evs) /\ SInv (run_from w evs) /\ bound (run_from w evs) /\
   (length (w_log (run_from w evs)) <= length (w_log w) + length evs)%nat /\
   exists l, w_log (run_from w evs) = w_log w ++ l.
 Proof.
-  induction evs as [|e evs IH]; intros w HI HS Hb Hs; simpl in *.
+  induction evs as [|e evs IH]; intros w HI HS Hb; simpl in *.
   - split; auto. split; auto. split; [unfold bound; lia|]. split; [lia|]. exists []. rewrite app_nil_r; auto.
-  - apply andb_true_iff in Hs as [Hs1 Hs2].
-    assert (Hbw : bound w) by (unfold bound; lia).
-    destruct (step_Inv w e HI HS Hbw Hs1) as [HI' Hl].
+  - assert (Hbw : bound w) by (unfold bound; lia).
+    destruct (step_Inv w e HI HS Hbw) as [HI' Hl].
     assert (HS' : SInv (step w e)) by (apply step_SInv; auto; apply HI).
     destruct (IH (step w e) HI' HS') as (H1 & H5 & H2 & H4 & l2 & H3); auto; [lia|].
     split; auto. split; auto. split; auto. split; [unfold run_from in *; lia|].
     destruct (log_grows w e) as [l1 Hl1]. exists (l1 ++ l2). unfold run_from in *. rewrite H3, Hl1, app_assoc. auto.
 Qed.
 
-Lemma trace_safe_from_app w a b :
-  trace_safe_from w (a ++ b) = trace_safe_from w a && trace_safe_from (run_from w a) b.
-Proof.
-  revert w. induction a as [|e a IH]; intros w; simpl; auto.
-  rewrite IH. rewrite andb_assoc. reflexivity.
-Qed.
+
 
 Lemma run_app a b : run (a ++ b) = run_from (run a) b.
 Proof. unfold run, run_from. apply fold_left_app. Qed.
 
 Definition bounded (evs : list event) : Prop := N.of_nat (length evs) + 3 < 4294967296.
 
-Lemma run_Inv evs : trace_safe evs = true -> bounded evs -> Inv (run evs) /\ bound (run evs).
+Lemma run_Inv evs : bounded evs -> Inv (run evs) /\ bound (run evs).
 Proof.
-  intros Hs Hb. destruct (run_from_Inv evs w_init Inv_init I) as (H1 & _ & H2 & _); auto.
+  intros Hb. destruct (run_from_Inv evs w_init Inv_init I) as (H1 & _ & H2 & _); auto.
 Qed.
 
 (* ================= the property-level statements ================= *)
 Lemma ids_unique_lemma evs :
-  trace_safe evs = true -> bounded evs ->
+  bounded evs ->
   NoDup (h_cids (run evs)) /\ NoDup (h_tsids (run evs)) /\ NoDup (map fst (h_parts (run evs))).
 Proof.
-  intros Hs Hb. destruct (run_Inv evs Hs Hb) as ((_ & HH & _) & _).
+  intros Hb. destruct (run_Inv evs Hb) as ((_ & HH & _) & _).
   destruct HH as (_ & H1 & _ & H2 & _ & H3). auto.
 Qed.
 
 Lemma ownership_stable_lemma evs evs' p c :
-  trace_safe (evs ++ evs') = true -> bounded (evs ++ evs') ->
+  bounded (evs ++ evs') ->
   In (p, c) (h_parts (run evs)) \/ m_lookup (leader_st (run evs)) p = ROk c ->
   m_lookup (leader_st (run (evs ++ evs'))) p = ROk c.
 Proof.
-  intros Hs Hb Hpc. unfold trace_safe in Hs. rewrite trace_safe_from_app in Hs.
-  apply andb_true_iff in Hs as [Hs1 Hs2]. unfold bounded in Hb. rewrite app_length in Hb.
+  intros Hb Hpc. unfold bounded in Hb. rewrite app_length in Hb.
   destruct (run_from_Inv evs w_init Inv_init I) as (HI1 & HS1 & Hb1 & Hlen & l1 & Hl1); auto; [unfold W32; simpl; lia|].
   fold (run evs) in *. simpl in Hlen.
   destruct (run_from_Inv evs' (run evs) HI1 HS1) as (HI2 & _ & Hb2 & _ & l2 & Hl2); auto; [unfold W32; lia|].
@@ -1164,28 +1151,27 @@ Proof.
 Qed.
 
 Lemma curator_serves_only_assigned_lemma evs :
-  trace_safe evs = true -> bounded evs ->
+  bounded evs ->
   w_fatal (run evs) = false /\
   forall p, In p (c_parts (w_cur (run evs))) ->
             c_id (w_cur (run evs)) <> 0 /\ m_lookup (leader_st (run evs)) p = ROk (c_id (w_cur (run evs))).
 Proof.
-  intros Hs Hb. destruct (run_Inv evs Hs Hb) as ((HR & _ & HC) & _).
+  intros Hb. destruct (run_Inv evs Hb) as ((HR & _ & HC) & _).
   destruct HC as (H1 & _ & H3). split; auto. rewrite (RInv_leader_st _ HR). auto.
 Qed.
 
 Lemma lost_assignment_recovered_lemma evs n ps :
-  trace_safe (evs ++ [EvCHeartbeat n false]) = true -> bounded (evs ++ [EvCHeartbeat n false]) ->
+  bounded (evs ++ [EvCHeartbeat n false]) ->
   snd (c_heartbeat (run evs) n false) = Some (Some ps) ->
   let w' := run (evs ++ [EvCHeartbeat n false]) in
   c_id (w_cur w') <> 0 /\
   (forall p, m_lookup (leader_st w') p = ROk (c_id (w_cur w')) -> In p (c_parts (w_cur w'))) /\
   (forall p, In (p, c_id (w_cur w')) (h_parts w') -> In p (c_parts (w_cur w'))).
 Proof.
-  intros Hs Hb Hr w'.
-  destruct (run_Inv _ Hs Hb) as (HI' & _). fold w' in HI'.
-  unfold trace_safe in Hs. rewrite trace_safe_from_app in Hs. apply andb_true_iff in Hs as [Hs1 _].
+  intros Hb Hr w'.
+  destruct (run_Inv _ Hb) as (HI' & _). fold w' in HI'.
   assert (Hb1 : bounded evs) by (unfold bounded in *; rewrite app_length in Hb; lia).
-  destruct (run_Inv evs Hs1 Hb1) as (HI & _).
+  destruct (run_Inv evs Hb1) as (HI & _).
   destruct (c_heartbeat_Inv (run evs) n false HI) as (_ & _ & Hrec).
   specialize (Hrec ps Hr eq_refl). simpl in Hrec.
   assert (Hw' : w' = fst (c_heartbeat (run evs) n false)).
@@ -1198,40 +1184,37 @@ Proof.
     rewrite Forall_forall in H5. apply (H5 _ Hin).
 Qed.
 
-(* ================= F7: the refutations, by computation on concrete event sequences ================= *)
+(* ================= F7 (fixed by ca0788b): refutations for the UNREPAIRED variant restore_merge ================= *)
 (* replica 1 applies SetReadOnly(true) and then lags; the leader leaves read-only mode and registers curator 1;
-   replica 1 installs the leader's snapshot (ReadOnly=false is not transmitted, so it stays read-only), rejects the
-   next registration (curator 2) which the leader applies; replica 1 takes over, read-only mode is switched off
-   there, and the next registration returns 2 again. *)
+   replica 1 installs the leader's snapshot (with restore_merge ReadOnly=false is not transmitted, so it stays
+   read-only), rejects the next registration (curator 2) which the leader applies; replica 1 takes over, read-only
+   mode is switched off there, and the next registration returns 2 again. *)
 Definition f7_trace : list event :=
   [EvCmd (CSetRO true); EvCatchup 1 1; EvCmd (CSetRO false); EvCmd CRegCur; EvInstall 1;
    EvCmd CRegCur; EvLeader 1; EvCmd (CSetRO false); EvCmd CRegCur].
 
-Lemma f7_dup_curator_id : h_cids (run f7_trace) = [1; 2; 2].
-Proof. vm_compute. reflexivity. Qed.
+Lemma f7_dup_curator_id : h_cids (run_merge f7_trace) = [1; 2; 2] /\ h_cids (run f7_trace) = [1; 2; 3].
+Proof. vm_compute. split; reflexivity. Qed.
 
-(* the same divergence makes partition 1, handed out to curator 1, be handed out again to curator 2 *)
 Definition f7_trace_part : list event :=
   [EvCmd CRegCur; EvCmd CRegCur; EvCmd (CSetRO true); EvCatchup 1 3; EvCmd (CSetRO false); EvInstall 1;
    EvCmd (CNewPart 1); EvLeader 1; EvCmd (CSetRO false); EvCmd (CNewPart 2)].
 
 Lemma f7_partition_reassigned :
-  h_parts (run f7_trace_part) = [(1, 1); (1, 2)] /\ m_lookup (leader_st (run f7_trace_part)) 1 = ROk 2.
-Proof. vm_compute. split; reflexivity. Qed.
+  h_parts (run_merge f7_trace_part) = [(1, 1); (1, 2)] /\ m_lookup (leader_st (run_merge f7_trace_part)) 1 = ROk 2 /\
+  h_parts (run f7_trace_part) = [(1, 1); (2, 2)].
+Proof. vm_compute. repeat split; reflexivity. Qed.
 
-Lemma f7_trace_unsafe : trace_safe f7_trace = false /\ trace_safe f7_trace_part = false.
-Proof. vm_compute. split; reflexivity. Qed.
-
-Lemma ids_unique_refuted_lemma :
-  exists evs, bounded evs /\ ~ NoDup (h_cids (run evs)).
+Lemma ids_unique_merge_refuted_lemma :
+  exists evs, bounded evs /\ ~ NoDup (h_cids (run_merge evs)).
 Proof.
-  exists f7_trace. split; [unfold bounded; simpl; lia|]. rewrite f7_dup_curator_id.
+  exists f7_trace. split; [unfold bounded; simpl; lia|]. destruct f7_dup_curator_id as [-> _].
   intros H. inversion H as [|? ? _ H2]; subst. inversion H2 as [|? ? H3 _]; subst. apply H3. left; auto.
 Qed.
 
-Lemma ownership_refuted_lemma :
-  exists evs evs' p c, bounded (evs ++ evs') /\ In (p, c) (h_parts (run evs)) /\
-                       m_lookup (leader_st (run (evs ++ evs'))) p <> ROk c.
+Lemma ownership_merge_refuted_lemma :
+  exists evs evs' p c, bounded (evs ++ evs') /\ In (p, c) (h_parts (run_merge evs)) /\
+                       m_lookup (leader_st (run_merge (evs ++ evs'))) p <> ROk c.
 Proof.
   exists (firstn 7 f7_trace_part), (skipn 7 f7_trace_part), 1, 1.
   split; [unfold bounded; simpl; lia|]. split; [vm_compute; auto|].
